@@ -152,7 +152,7 @@ CHECKS = {
         category="fault_enumeration",
         technique="fault injection and crash-point enumeration with an LD_PRELOAD interposer; state-invariant oracle on the resulting tree",
         text="For each scenario (remove / link / link --soft / dedupe with emulated FICLONE / move x small trees with hostile "
-             "names x text/JSON report; move to the same or to another file system, with or without a foreign file at one "
+             "names x text/JSON report; reports made with --match-links over hard-linked members; move to the same or to another file system, with or without a foreign file at one "
              "destination) a recording run numbers the mutating libc calls on the tree; then exhaustively, each on "
              "a tree restored with cp -a: SIGKILL before call k for every k (covers 'just after k-1'), call k failing with each "
              "of EIO/ENOSPC/EXDEV/EPERM/EOPNOTSUPP/EACCES, and pairs (call k fails and the j-th following call, j=1..4, fails "
@@ -199,7 +199,8 @@ CHECKS = {
              "then one run per (entry, call position, errno in EACCES/EIO/ENOENT) fails exactly that call, under six "
              "configurations (disk kind pinned ssd/hdd/unknown, ext4/tmpfs, thread pools, the tree given as one root or as a list "
              "of files and directories on --stdin, whose own stat faults are included; --unique; --skip-content-hash; --no-copy "
-             "transforms whose child process meets the fault); thorough adds pairs of faults on two "
+             "transforms whose child process meets the fault), plus persistent faults (every stat / open / read of one file fails); "
+             "thorough adds pairs of faults on two "
              "files and more scenarios. The run must exit 0 with a complete report equal to the reference partition of the tree "
              "without the entry (subtree for a directory; entries after a failed readdir are don't-care; a failed extent query "
              "changes nothing, nor does a failed stat whose result was not needed: the report then equals the fault-free one) and a "
